@@ -68,8 +68,13 @@ fn batch_size_strategy() -> impl Strategy<Value = u8> {
 // ------------------------------------------------------------------------------------------------
 
 fn c02_scenario(fault: bool) -> impl Strategy<Value = Scenario> {
+    // a few nonces recur (in packets of different sizes / with and without SRV): same nonce, different request
+    let recurring = (0u8..4, any::<bool>(), prop_oneof![Just(256u16), 256u16..=375], any::<bool>()).prop_map(|(k, ietf, words, srv)| {
+        let n = if ietf { 32 } else { 64 };
+        Dgram::Std(StdReq { ietf, words, nonce: Hex(crate::refcrypto::sha512(&[b"recur", &[k]])[..n].to_vec()), srv: if ietf && srv { SrvOpt::Correct } else { SrvOpt::Absent }, vers: if ietf { vec![VER_DRAFT13] } else { vec![] } })
+    });
     let step = vec_of(
-        (0u8..48, prop_oneof![12 => std_req().prop_map(Dgram::Std), 1 => invalid_dgram()]).prop_map(|(sock, d)| Send { sock, d }).boxed(),
+        (0u8..48, prop_oneof![12 => std_req().prop_map(Dgram::Std), 2 => recurring, 1 => invalid_dgram()]).prop_map(|(sock, d)| Send { sock, d }).boxed(),
         prop_oneof![2 => 1usize..=8, 3 => 1usize..=70, 1 => 64usize..=130],
     );
     (seed32(), batch_size_strategy(), if fault { (1u8..=50).boxed() } else { Just(0u8).boxed() }, proptest::collection::vec(step, 1..=6))
